@@ -15,10 +15,10 @@ CHECKS = {
          "After every step the traversal lists (hook) must hold exactly the stored neighbours with the bit-exact minimum stored weight; weighted Dijkstra/betweenness/closeness on the final graph must equal oracles computed from get_all_edges() alone.",
          "trusts the snapshot hook and the oracle library; histories are uniformly weighted or unweighted as the property states", "DESIGN.md §4 C03"),
  "C04": ("exploration", "PBT over generated graphs of all 8 kinds with a brute-force / Floyd-Warshall / path-count oracle; exhaustive block over all graphs on <= 3 nodes",
-         "Reported keys, distances, path validity, completeness and uniqueness of the shortest-path set (positive dyadic weights) and first_only are compared with an oracle that enumerates simple paths (n <= 10) or counts paths on the shortest-path DAG (n > 20, parallel path).",
+         "Reported keys, distances, path validity, completeness and uniqueness of the shortest-path set (positive dyadic weights) and first_only are compared with an oracle that enumerates simple paths (n <= 10) or counts paths on the shortest-path DAG (n > 20, parallel path). Also: route lengths one ulp apart (neighbouring-double weights while sums stay exact) and a recurrence protocol (exactly 2^8-1, 2^8, 2^16-1, 2^16 searches on one thread between two checked searches).",
          "trusts harness/src/oracle.rs; completeness only asserted for strictly positive exactly-summable weights", "DESIGN.md §4 C04"),
  "C05": ("exploration", "PBT with a definition-level oracle (explicit shortest-path enumeration / sigma products) for betweenness, all rescaling combinations",
-         "betweenness_centrality is compared (1e-9) with the sum over ordered pairs of the fraction of shortest paths through v, for weighted/unweighted x normalized/raw on graphs of all kinds incl. n <= 2 and n > 20.",
+         "betweenness_centrality is compared (1e-9) with the sum over ordered pairs of the fraction of shortest paths through v, for weighted/unweighted x normalized/raw on graphs of all kinds incl. n <= 2 and n > 20. Also: route lengths one ulp apart (neighbouring-double weights, checked while all sums stay exact).",
          "trusts the oracle; paths are node sequences; order-independent results are also compared between String names, a user-defined name type (lossy Display, colliding Hash) and i64 names; the pool (1, 3, 16, 24, 64 threads) is a generated input; every n in 21..=1200 (thorough ..=9000) on a closed-form family", "DESIGN.md §4 C05"),
  "C06": ("exploration", "PBT with a Floyd-Warshall oracle for closeness (incoming distances, WF scaling)",
          "closeness_centrality is compared (1e-12) with the statement's formula evaluated on an independent distance matrix for weighted/unweighted x wf_improved on graphs of all kinds.",
@@ -33,16 +33,16 @@ CHECKS = {
          "Counts, degrees (self-loop = 2), weighted variants, per-node vs all-nodes maps, handshake identities on the API's own outputs, degree centrality, density and every entry of the sparse adjacency matrix are compared with counts over the model's edge list.",
          "trusts the model; weighted aggregates asserted only when every edge is weighted (dyadic)", "DESIGN.md §4 C09"),
  "C10": ("exploration", "PBT with a transitive-closure oracle; results compared as sets of sets, each call repeated 3x for hash-order dependence",
-         "connected / weak / strong components, node_connected_component, breadth_first_search and bfs_equal_size_partitions are checked against reachability classes of the edge list on graphs stressed towards nested SCCs, long cycles and many small components.",
+         "connected / weak / strong components, node_connected_component, breadth_first_search and bfs_equal_size_partitions are checked against reachability classes of the edge list on graphs stressed towards nested SCCs, long cycles and many small components. Also two fixed graphs with one breadth-first level of more than 2^16 nodes.",
          "trusts the closure oracle; 'bounded size' read as floor(n/k)+1", "DESIGN.md §4 C10"),
  "C11": ("exploration", "PBT with dense-matrix definition oracles (triangles, Fagiolo, Onnela, Lind squares); subset-consistency and refusal clauses",
-         "clustering (4 variants), average_clustering, triangles, transitivity, generalized_degree and square_clustering are compared with matrix definitions on the loop-free graph, for None and generated subsets; multi-edge / directed refusals must be WrongMethod.",
+         "clustering (4 variants), average_clustering, triangles, transitivity, generalized_degree and square_clustering are compared with matrix definitions on the loop-free graph, for None and generated subsets; multi-edge / directed refusals must be WrongMethod. Also subnormal and 2^1000-scale weights (unmixed).",
          "trusts the oracles; weighted values asserted only when the largest weight is unambiguous", "DESIGN.md §4 C11"),
  "C12": ("exploration", "PBT over partition families built by mutation of a true partition; set-algebra and formula oracles",
          "is_partition must equal the set-algebra predicate on families with overlaps, omissions, both at once, foreign names and duplicated blocks; modularity must equal the statement's formula (1e-9) or be NotAPartition.",
          "trusts the formula transcription in harness/src/props/c12.rs", "DESIGN.md §4 C12"),
  "C13": ("exploration", "PBT with a step-budget hook turning non-termination into a shrinkable failure; validity predicates over the returned levels",
-         "louvain_partitions must return within a step budget, every level must be a partition into non-empty sets, levels must be nested, harness-computed modularity must be non-decreasing (single-edge graphs), louvain_communities = last level.",
+         "louvain_partitions must return within a step budget, every level must be a partition into non-empty sets, levels must be nested, harness-computed modularity must be non-decreasing (single-edge graphs), louvain_communities = last level. Also hubs of 2 099 neighbours (outwards, inwards, undirected).",
          "termination is a budget (20000 loop iterations), not a proof; trusts the tick hook", "DESIGN.md §4 C13"),
  "C14": ("exploration", "round-trip PBT over arbitrary Unicode names (no control chars) and arbitrary non-NaN f64 bit patterns",
          "write_graphml_string -> read_graphml_string (and the file variants) must reproduce ordered names, directedness and the edge multiset with bit-identical weights.",
@@ -51,7 +51,7 @@ CHECKS = {
          "get_subgraph, reverse (twice = identity), set_all_edge_weights and to_single_edges are compared with results computed from the source's node and edge lists for all 96 specs and arbitrary subsets / weights.",
          "trusts the model and the coherence oracle", "DESIGN.md §4 C15"),
  "C16": ("exploration", "PBT plus exhaustive small block plus seeded statistical cells with an 8-sigma bound; structural validity of every generated graph",
-         "complete_graph for every n <= 60 and sampled larger n; fast_gnp_random_graph structure for n <= 300 and six probability classes down to 1e-307; mean edge count and pair support over hundreds of seeds per (n,p,d) cell; invalid p rejected; karate club against the Zachary list.",
+         "complete_graph for every n <= 60 and sampled larger n; fast_gnp_random_graph structure for n <= 300 and six probability classes down to 1e-307; mean edge count and pair support over hundreds of seeds per (n,p,d) cell; invalid p rejected; karate club against the Zachary list. Also per-pair coverage over fixed seeds at 261 and 300 nodes.",
          "statistical bounds (mean edge count per cell, per-node marginals in the sparse regime) have false-alarm probability < 1e-14 per cell / node", "DESIGN.md §4 C16"),
  "C17": ("exploration", "repeated-execution differential testing: in-process repeats, rayon pools of 1/3/16 threads and separate worker processes must agree on canonical results",
          "Seeded Louvain and the seeded generator must return identical canonical results across 5 repeated calls, three pool sizes and another process, incl. graphs whose weights are spaced at a fraction of the library's tie tolerance and non-dyadic weights up to 1e6; non-randomised algorithms must agree up to 1e-9.",
